@@ -273,10 +273,17 @@ def check_goal(I, goal, name, tag, unit, extra_hyps=()):
     smt2 = None
     if status == "unknown":
         smt2 = s.to_smt2()
+    xcheck = None
+    if status == "unsat" and getattr(I.w, "tier", "quick") == "thorough":
+        n_ = I.w.__dict__.setdefault("_xcheck_ctr", [0])
+        n_[0] += 1
+        if n_[0] % 40 == 1:  # thorough tier: a sample of discharged obligations is re-discharged by the second solver
+            xcheck = s.to_smt2()
     s.pop()
     s.set("timeout", c.FEAS_TIMEOUT_MS)
     ob = Oblig(name, tag, status, time.time() - t0, list(c.notes), model, "z3", unit)
     ob.smt2 = smt2
+    ob.xcheck = xcheck
     c.obligs.append(ob)
     return ob
 
@@ -507,6 +514,9 @@ def verify_unit(world, func, ct, receiver=None, unit_name=None, setup=None, max_
         all_obligs.extend(ctx.obligs)
         stats["feas_unknown"] += ctx.feas_unknown
     # vacuity guard: every outcome the contract describes must be reached by at least one feasible path
+    stats["wanted"] = ["normal"] + [f"raise:{k}" for k in ct.raises if f"raise:{k}" not in getattr(ct, "optional_outcomes", ())]
+    if "normal" in getattr(ct, "optional_outcomes", ()):
+        stats["wanted"].remove("normal")
     if "unsupported" not in stats and not case:
         wanted = ["normal"] + [f"raise:{k}" for k in ct.raises]
         seen = set(stats["outcomes"])
